@@ -130,11 +130,35 @@ func basicVariants(p *geval.Path, unnamedToo bool) []map[*geval.SymType]string {
 
 func hasAssignRoles(v map[*geval.SymType]string) bool {
 	for _, r := range v {
-		if strings.HasPrefix(r, "assign:") {
+		if strings.HasPrefix(r, "assign:") || strings.HasPrefix(r, "errtype:") {
 			return true
 		}
 	}
 	return false
+}
+
+// errVariants: derive.IsError(t) holds of the interface error and of every named
+// type with an Error() string method. Besides the reading "t is error", one reading
+// in which every such type of the path is a concrete error type.
+func errVariants(p *geval.Path) []map[*geval.SymType]string {
+	byDesc := map[string]*geval.SymType{}
+	for x := range p.Facts {
+		byDesc[x.Desc] = x
+	}
+	v := map[*geval.SymType]string{}
+	for k, val := range p.Preds {
+		if val == geval.Yes && strings.HasPrefix(k, "derive.IsError(") {
+			if t := byDesc[k[len("derive.IsError("):len(k)-1]]; t != nil {
+				if f := p.Facts[t]; f == nil || (f.Kind == geval.KUnknown && f.TypeText == "") {
+					v[t] = "errtype:concrete"
+				}
+			}
+		}
+	}
+	if len(v) == 0 {
+		return nil
+	}
+	return []map[*geval.SymType]string{v}
 }
 
 // assignVariants: for the pairs of types the path only knows to be assignable
@@ -319,7 +343,7 @@ func RunEntry(l *driver.Loaded, b *Builder, entryKey string, opt RunOpts) (*Entr
 		// assignability is wider than identity: besides the reading "the same type",
 		// the text is checked under readings in which assignable types are distinct
 		// (a named type and its unnamed underlying type)
-		if avs := assignVariants(p); len(avs) > 0 {
+		if avs := append(assignVariants(p), errVariants(p)...); len(avs) > 0 {
 			var all []map[*geval.SymType]string
 			for _, bv := range bvs {
 				all = append(all, bv)
@@ -393,6 +417,9 @@ func RunEntry(l *driver.Loaded, b *Builder, entryKey string, opt RunOpts) (*Entr
 				hd := in.CheckHeader()
 				if con.Attr("o-header") == "unchecked" {
 					hd = nil // no other plugin calls this helper: only its parameter list is specified
+				}
+				if con.Attr("o-header") == "params" {
+					hd = in.CheckHeaderParams() // the parameters are what the user's call passes; the result type is not specified
 				}
 				rep.Results = append(rep.Results, ores(entryKey, "header", "", vid, len(hd) == 0, strings.Join(hd, "; ")+" on path "+desc, in.Src))
 				own := in.CheckOwnership()
